@@ -166,6 +166,10 @@ func IsNil(it LinkOrIRI) bool {
 	// This is the default if the argument can't be cast to Object, as is the case for an ItemCollection
 	isNil := false
 	if IsIRI(it) {
+		if p, ok := it.(*IRI); ok && p == nil {
+			// GetLink has a value receiver: calling it through a nil *IRI panics
+			return true
+		}
 		isNil = len(it.GetLink()) == 0 || strings.EqualFold(it.GetLink().String(), NilIRI.String())
 	} else if IsItemCollection(it) {
 		if v, ok := it.(ItemCollection); ok {
